@@ -178,6 +178,29 @@ def run(ctx):
                     res.find(key, g.loc(t.get("sp")), "%s calls %s but does not propagate its error (no `?`, not returned, no Err arm that returns): a RecursiveCalibration reported by the nested expansion is dropped" % (f.path.replace("quil_rs::", ""), callee_path(c).rsplit("::", 1)[-1]),
                              "`DEFCAL X 0: X 0` then Calibrations::expand(X 0) returns Ok(..) with the instruction left in place instead of RecursiveCalibration")
     res.count("expansion_call_sites", nprop, floor=4)
+    # the substitution applied to every expanded instruction terminates because it recurses on the children of the node
+    # it was given and on nothing else; recursing on a value taken from the substitution map (e.g. to resolve replacements
+    # "transitively") does not terminate when a replacement mentions the variable it replaces (`RX(%theta) 0` against
+    # `DEFCAL RX(%theta) q`)
+    key = "K9|substitution-recursion-structural"
+    sv = [f_ for f_ in db.fns if f_.path == "quil_rs::expression::Expression::substitute_variables"]
+    if len(sv) != 1:
+        res.missing_anchor("Expression::substitute_variables")
+    else:
+        sv = sv[0]
+        rec = [(bb, t) for bb, t, c in sv.calls() if c and callee_path(c) == sv.path]
+        bad = []
+        for bb, t in rec:
+            e = fn_expr_operand(sv, t["args"][0])
+            r_ = e
+            while r_[0] in ("field", "as") or (r_[0] == "call" and r_[1].rsplit("::", 1)[-1] in ("deref", "as_ref", "borrow") and r_[2]):
+                r_ = r_[1] if r_[0] != "call" else r_[2][0]
+            if not (r_[0] == "param" and r_[1] == 1):
+                bad.append(str(r_[:2])[:80])
+        ok = bool(rec) and not bad
+        res.site(key, True, {"recursive_calls": len(rec), "not_on_a_child_of_self": bad, "verdict": "ok" if ok else "VIOLATION"})
+        if not ok:
+            res.find(key, sv.loc(), "substitute_variables recurses on a value that is not a sub-expression of the node it was given (%s): the recursion is no longer bounded by the size of the expression" % bad, "`DEFCAL RX(%theta) q: SHIFT-PHASE q \"rf\" %theta` and `RX(2*%theta) 0`: expand_calibrations overflows the stack")
     res.explanation = "Guard dominance on the recursion cycle of calibration expansion (MIR dominators), provenance of the trail, and a finiteness argument on the guard key type (type containment against the values the step creates); %d functions are reachable from expand_calibrations." % len(local)
     res.assumptions = ["slice::contains uses PartialEq of the element type"]
     return res
